@@ -168,7 +168,13 @@ impl<'r> Gen<'r> {
                 return cands[self.rng.below(cands.len())].name.clone();
             }
         }
-        self.fresh("v")
+        // mostly short names, sometimes long ones (identifier length must never matter)
+        match self.rng.below(12) {
+            0 => self.fresh("a_rather_long_variable_name_"),
+            1 => self.fresh("Counter_With_Mixed_Case_And_Digits_0123456789_"),
+            2 => self.fresh("_"),
+            _ => self.fresh("v"),
+        }
     }
 
     fn declare(&mut self, name: &str, ty: Ty) {
@@ -211,7 +217,13 @@ impl<'r> Gen<'r> {
             self.random_scalar()
         } else if r < 8 && self.o.arrays {
             let t = self.random_scalar();
-            Ty::Arr(Box::new(t), self.rng.below(5))
+            let inner = Ty::Arr(Box::new(t), self.rng.below(5));
+            if self.rng.chance(1, 5) {
+                // an array of arrays (rows must be distinct objects unless built from one variable)
+                Ty::Arr(Box::new(Ty::Arr(Box::new(self.random_scalar()), 1 + self.rng.below(3))), 1 + self.rng.below(3))
+            } else {
+                inner
+            }
         } else {
             // a type for which a value is visible, if any
             let vis = self.visible();
@@ -547,6 +559,19 @@ impl<'r> Gen<'r> {
         let mut cands: Vec<AST> = Vec::new();
         for v in &vis {
             match &v.ty {
+                Ty::Arr(t, n) if *n > 0 && matches!(&**t, Ty::Arr(t2, n2) if **t2 == *ty && *n2 > 0) => {
+                    if let Ty::Arr(_, n2) = &**t {
+                        let i = AST::Integer(self.rng.below(*n) as i32);
+                        let j = AST::Integer(self.rng.below(*n2) as i32);
+                        let row = AST::access_array(var(&v.name), i);
+                        if self.rng.chance(1, 2) {
+                            let val = self.expr(ty, depth);
+                            cands.push(AST::assign_array(row, j, val));
+                        } else {
+                            cands.push(AST::access_array(row, j));
+                        }
+                    }
+                }
                 Ty::Arr(t, n) if **t == *ty && *n > 0 => {
                     let i = AST::Integer(self.rng.below(*n) as i32);
                     if self.rng.chance(1, 3) {
